@@ -1089,6 +1089,9 @@ where
                 .or_insert_with(|| (0, false, UniqueVec::default(), 0));
         }
 
+        #[cfg(feature = "verif")]
+        anda_db_utils::verif::point("bt.insert.entry");
+
         // Calculate the size increase for this insertion
         let mut is_new = false;
         let mut size_increase = 0;
